@@ -97,7 +97,7 @@ def run(tier, seed, flavour="plain"):
         V.add_violation("C06|dimensionless|print", {"got": d["dimensionless_print"]})
     # (3) printing / ordering / hash on exponent boxes: the C++ monitor
     res = core.run_sharded([{"name": "c06_dims", "binary": paths["c06_dims"], "nshards": core.NCPU, "out": od,
-                             "args": ["--seed", str(seed), "--tier", tier] + core.deep(tier, pairs=1000000000),
+                             "args": ["--seed", str(seed), "--tier", tier] + core.deep(tier, pairs=1000000000) + core.boost(tier, flavour, pairs=16000000),
                              "env": core.SAN_ENV if flavour == "san" else None}])
     V.absorb(res)
     m = core.merge_summaries(res)
